@@ -74,6 +74,7 @@ func (c08) Gates(tier string, m map[string]int64) []rt.Gate {
 	return []rt.Gate{
 		rt.GateMin("grid points compared", m, "grid_points", 10000),
 		rt.GateMin("offset multiple of batch size (>0)", m, "offset_multiple_of_B", 100),
+		rt.GateMin("grid points spelled with zero-padded parameters", m, "zero_padded_parameters", 100),
 		rt.GateMin("slice beyond the end", m, "beyond_end", 100),
 		rt.GateMin("delete grid points", m, "kind:delete", 100),
 		rt.GateMin("delete over point reads grid points", m, "kind:delete-mget", 100),
@@ -195,6 +196,14 @@ func (k c08) point(c *rt.Ctx, cell c08Cell, pairs []refstore.Pair, mode drive.Mo
 	lim := fmt.Sprintf(" limit %d, %d", s, n)
 	if s == 0 && n%2 == 1 {
 		lim = fmt.Sprintf(" limit %d", n)
+	}
+	if (s*7+n)%4 == 1 && n < 1000 {
+		// the parameters are decimal integer literals however they are padded: 010 is ten
+		rec.Inc("zero_padded_parameters")
+		lim = fmt.Sprintf(" limit %02d, %03d", s, n)
+		if s == 0 && n%2 == 0 {
+			lim = fmt.Sprintf(" limit %03d", n)
+		}
 	}
 	lo, hi := s, len(un.Rows)
 	if lo > len(un.Rows) {
